@@ -46,7 +46,7 @@ def enumerated(tier):
 
 def groups(tier):
     return [('num-coefficients', ('num',)), ('derivative-scaling', ('scale',)), ('failed-flag', ('failed',)), ('initialise', ('init',)),
-            ('polynomial[m=8]', ('poly',)), ('acceleration-stages', ('stages',)), ('documented-defaults', ('defaults',)), ('taylor-concrete', ('tconc',))]
+            ('polynomial[m=8]', ('poly',)), ('acceleration-stages', ('stages',)), ('documented-defaults', ('defaults',)), ('taylor-concrete', ('tconc',)), ('aliasing-removed', ('alias',))]
 
 
 def functions_under_contract():
@@ -64,6 +64,11 @@ def run_num():
         if not (m >= n + 1 and m & (m - 1) == 0 and m >= 8):
             bad.append((n, m))
     solve.fact('M:m>=n+1-and-power-of-two-for-n-in-1..192(exhaustive)', not bad, note=str(bad[:5]))
+    # (the docstring's table -- 32 for 12 < n <= 25, 64 for 25 < n <= 51, 128 for 51 < n <= 103 -- is NOT what the code does at
+    # n = 13, 26, 27, 52, where it returns the next smaller power of two, still >= n+1; the property asks for n+1 coefficients only,
+    # so the break points are not pinned here.)  m is non-decreasing in n and never more than 8 times n+1:
+    ms = [int(fb._num_taylor_coefficients(n)) for n in range(1, 193)]
+    solve.fact('M:m(n)-non-decreasing-and-m<=8*(n+1)-for-n-in-1..192', all(a_ <= b_ for a_, b_ in zip(ms, ms[1:])) and all(m_ <= 8 * (n_ + 2) for n_, m_ in enumerate(ms)))
     # (outside the property's range n <= 100; only that a request beyond the largest transform is refused rather than answered)
     try:
         fb._num_taylor_coefficients(193)
@@ -350,7 +355,7 @@ def run_stages():
 
         def max_m1m2():
             calls['floor'] += 1
-            return 1.0
+            return 3.0
         fb.dea3 = dea3_spy
         fb._Limit._get_best_estimate = staticmethod(best_spy)
         tag = 'G:radii=%d:' % nk
@@ -381,7 +386,36 @@ def run_stages():
         else:
             solve.fact(tag + 'fewer-than-three-extrapolants:last-extrapolant-with-the-rounding-floor',
                        len(calls['dea3']) == 0 and calls['floor'] == 1 and np.array_equal(coefs, ext[-1]) and
-                       np.allclose(errors, fb.EPS / np.power(rs[2], np.arange(m)), rtol=1e-15, atol=0))
+                       np.allclose(errors, fb.EPS / np.power(rs[2], np.arange(m)) * 3.0, rtol=1e-15, atol=0))
+    return {}
+
+
+def run_alias():
+    """what the two Richardson sweeps of _extrapolate are for: the scaled FFT coefficients on a circle of radius r carry the aliasing
+    terms a r^m + b r^2m; for geometrically spaced radii every extrapolant equals the coefficient itself -- for ALL L, a, b
+    (symbolic, complex), m = 8 and 16, 3..6 radii with ratio 8/5 and 13/10 (exact rational radii)"""
+    fb = mods()['fb']
+    with installed(fb):
+        for m in (8, 16):
+            for ratio in (Fraction(8, 5), Fraction(13, 10)):
+                for nk in (3, 4, 6):
+                    CTX.reset()
+                    rs = [R(Fraction(1, 2) * ratio ** k) for k in range(nk)]
+                    L = [cplx('L%d' % j) for j in range(2)]; a = [cplx('a%d' % j) for j in range(2)]; b = [cplx('b%d' % j) for j in range(2)]
+                    bs = [SymArr([L[j] + a[j] * r ** m + b[j] * r ** (2 * m) for j in range(2)]) for r in rs]
+                    tag = 'A:m=%d,ratio=%s,radii=%d:' % (m, ratio, nk)
+                    try:
+                        ext = fb._extrapolate(bs, rs, m)
+                    except Exception as e:
+                        solve.fact(tag + 'runs', False, note=repr(e)[:200]); continue
+                    solve.fact(tag + 'extrapolants==radii-2', len(ext) == nk - 2)
+                    for i, row in enumerate(ext):
+                        for j, v in enumerate(asobj(row).ravel()):
+                            v = C.lift(lift(v))
+                            solve.prove(tag + 'extrapolant%d[%d]==L(aliasing-terms-r^m-and-r^2m-removed)' % (i, j),
+                                        z3.And(z3.simplify(v.re.t - L[j].re.t, som=True) == 0, z3.simplify(v.im.t - L[j].im.t, som=True) == 0), [])
+                    if m == 8 and nk == 4 and ratio == Fraction(8, 5):
+                        solve.twin(tag + 'extrapolant0==L+a*r^m', lift(asobj(ext[0]).ravel()[0]).re.t == (L[0] + a[0] * rs[0] ** m).re.t, [])
     return {}
 
 
@@ -420,6 +454,8 @@ def run_group(args):
         return run_stages()
     if args[0] == 'defaults':
         return run_defaults()
+    if args[0] == 'alias':
+        return run_alias()
     return {'num': run_num, 'scale': run_scale, 'failed': run_failed, 'init': run_init, 'poly': run_poly}[args[0]]()
 
 
@@ -427,6 +463,8 @@ def replay_case(ob):
     if ob['name'].startswith('taylor-concrete/'):
         return dict(kind='C17.tconc', name=ob['name'].split('/', 1)[1].rsplit(':', 1)[0])
     g = ob['name'].split('/')[0]
+    if g == 'aliasing-removed':
+        return dict(kind='C17.alias')
     if g == 'acceleration-stages':
         return dict(kind='C17.stages')
     return dict(kind='C17.taylor', group=g)
